@@ -147,6 +147,23 @@ def run_maverage(case):
       if not near(g, e, tol) or not near(g, m, tol):
         raise Violation("maverage.%s(%d)(x, zero=%r)[%d] = %r, mean of last %d samples is %r (x=%r)"
                         % (name, size, zero, i, g, size, m, x))
+  # one filter object applied to two signals that are alive together and read alternately:
+  # each output must be the mean of *its own* last samples
+  if n >= 2:
+    x2 = [v + 1 for v in reversed(x)]
+    sums2 = [window_sum(x2, i, size, zero) for i in range(n)]
+    for name, mk in MAV:
+      f = mk(size)
+      sa, sb = iter(f(feed(x, route), **kw)), iter(f(feed(x2, route), **kw))
+      ga, gb = [], []
+      for i in range(n):
+        ga.append(next(sa))
+        gb.append(next(sb))
+      for lbl, got_i, ss in (("first", ga, sums), ("second", gb, sums2)):
+        for i, (g, su) in enumerate(zip(got_i, ss)):
+          if not near(g, c * su, tol + Fraction(TOL)) or (exact and g != c * su):
+            raise Violation("maverage.%s(%d) used on two signals read alternately: %s signal, output %d = %r, "
+                            "expected %r (x=%r, other=%r, zero=%r)" % (name, size, lbl, i, g, c * su, x, x2, zero))
   if exact:
     ref = outs["deque"]
     for name in outs:
